@@ -26,6 +26,13 @@ def fixture_block(rnd, name, params=()):
                              doc=rnd.choice([None, "d"]), style="pytest.fixture")
 
 
+def class_block(rnd, name, k):
+    """a test class with a fixture of its own (recorded by the analyzer's second pass only) and a method using it"""
+    return ("class TestH%d:\n" % k + wsgen.fixture_src(rnd, name, params=["self"], indent="    ", style="pytest.fixture",
+                                                        scope=rnd.choice([None, "class"]), doc=rnd.choice([None, "in a class"]))
+            + "\n    def test_m(self, %s):\n        pass\n" % name)
+
+
 def test_block(rnd, k, names):
     kind = rnd.choice(["param", "param", "usefixtures", "body"])
     if kind == "param":
@@ -52,7 +59,8 @@ def gen_history(rnd: random.Random, root="/vh"):
     imp = rnd.choice(["from .helpers import *\n", "from .helpers import %s\n" % helper_names[0], "", "from .helpers2 import *\n"])
     files[sub + "/conftest.py"] = File(sub + "/conftest.py", "import pytest\n" + imp,
                                        [fixture_block(rnd, n, [n]) for n in names if rnd.random() < 0.3])
-    files[sub + "/test_a.py"] = File(sub + "/test_a.py", "import pytest\n", [test_block(rnd, k, names) for k in range(rnd.randint(1, 3))])
+    files[sub + "/test_a.py"] = File(sub + "/test_a.py", "import pytest\n", [test_block(rnd, k, names) for k in range(rnd.randint(1, 3))]
+                                     + ([class_block(rnd, names[0], 50)] if rnd.random() < 0.4 else []))
     files[root + "/test_b.py"] = File(root + "/test_b.py", "import pytest\n",
                                       [fixture_block(rnd, names[0], [names[0]])] * (rnd.random() < 0.4) + [test_block(rnd, 9, names)])
     order = sorted(files)
@@ -76,7 +84,12 @@ def gen_history(rnd: random.Random, root="/vh"):
             f.blank = rnd.choice(["", "\n", "   \n\t\n", "\n\n"])
         elif kind == "add_fixture":
             n = rnd.choice(names + ["extra"])
-            f.blocks.insert(rnd.randint(0, len(f.blocks)), fixture_block(rnd, n, [n] if rnd.random() < 0.3 else []))
+            if rnd.random() < 0.3:
+                counter[0] += 1
+                f.blocks.insert(rnd.randint(0, len(f.blocks)), class_block(rnd, n, counter[0]))
+                tags.append("edit:add_class_fixture")
+            else:
+                f.blocks.insert(rnd.randint(0, len(f.blocks)), fixture_block(rnd, n, [n] if rnd.random() < 0.3 else []))
         elif kind == "remove" and f.blocks:
             del f.blocks[rnd.randrange(len(f.blocks))]
         elif kind == "remove_all":
